@@ -98,6 +98,9 @@ func evalL22(idx int, k kase, o *outcome) {
 		if chk, ok := indep(res.Sig); chk && !ok {
 			fail(key+"-independent-verifier-rejects", "aggregator 0: "+res.Trace.Outputs[0])
 		}
+		if res.Sig.LibWire != "ok" && res.Sig.LibWire != "-" {
+			fail(key+"-serialised-signature-rejected", "the signature re-parsed from its wire form is rejected by the library verifier: "+res.Trace.Outputs[0])
+		}
 		if chk, _ := indep(res.Sig); chk {
 			other := *res.Sig
 			m2 := append(append([]byte(nil), msg...), 1)
